@@ -420,11 +420,18 @@ def setitem(eng, base, idx, val):
                 k0 = kind_of(val)
                 base.items = [Sym(z3.If(iz == j, to_z3(val, k0), to_z3(x, k0)), k0) for j, x in enumerate(base.items)]
                 return
+            if isinstance(idx, slice):
+                if any(isinstance(b, Sym) for b in (idx.start, idx.stop, idx.step)):
+                    raise Unsupported("slice assignment with symbolic bounds")
+                base.items[idx] = list(iterate_concrete(eng, val))  # lst[a:b] = iterable (in place, aliases see it)
+                return
             try:
                 base.items[idx] = val
             except IndexError:
                 raise ProgExc(IndexError, "list assignment index out of range")
             return
+        if isinstance(idx, slice):
+            raise Unsupported("slice assignment into a symbolic list")
         iz = norm_index(eng, idx, base.n, "list assignment")
         vs = val if base.tup else (val,)
         base.cols = [z3.Store(c, iz, to_z3(v, k)) for c, v, k in zip(base.cols, vs, base.kinds)]
